@@ -31,4 +31,7 @@ Next == PRNext
 Emit == (phase \in {"done", "impossible"}) =>
           CSVWrite("%1$s", <<ToJson([universe |-> U, root |-> root, rounds |-> rounds,
                                       model |-> [gerr |-> result.gerr, nodes |-> result.nodes, edges |-> SetToSeq(result.edges)]])>>, OutFile)
+\* liveness on the model: under weak fairness of the step relation every run stops (checked in the quick configuration)
+Spec == Init /\ [][Next]_prvars /\ WF_prvars(Next)
+EventuallyStops == <>(phase \in {"done", "impossible"})
 =============================================================================
